@@ -28,6 +28,11 @@ def cases(chk):
             L.append(cc.line(cls, "file", fmt, k=K()))
         for cls in cc.STDIN_CLASSES:
             L.append(cc.line(cls, "stdin", fmt, k=K()))
+    # every way the engine can reject a text (k mod 6): syntax errors and grammatical projects refused while they are built
+    # through MessageHandler.error() -> sys.exit() (witness of F51), on both channels
+    for k in range(6):
+        for channel in ("file", "stdin"):
+            L.append(cc.line("syntax", channel, "json" if k % 2 else "csv", k=k))
     # every project shape once per channel (CRLF, non-ASCII, nested, comment without newline, ...)
     for shape in range(8):
         k = shape + 8 * rng.randrange(0, 6)
